@@ -55,6 +55,10 @@ type logicTarget struct {
 	// Pick, when set, selects ONE statement inside Fn (first match in source order); only that
 	// statement is translated, free locals being replaced by their single definition where there is one.
 	Pick func(n ast.Stmt) bool
+	// LoopStep: the picked statement is a 3-clause `for` loop; ONE ITERATION is translated:
+	// `if cond { body; post } else { exit }`.  Variables declared outside the loop are inputs (atoms by
+	// name); what the iteration assigns to them is returned as `"<name>'"` entries of the leaf.
+	LoopStep bool
 }
 
 type logicUnit struct {
@@ -189,6 +193,7 @@ type ltrans struct {
 	order  []string
 	locals map[types.Object]bool // objects declared inside the translated unit (incl. parameters are NOT here)
 	errs   []string
+	loopStep bool
 }
 
 func (t *ltrans) errf(pos token.Pos, f string, a ...any) {
@@ -668,6 +673,11 @@ func (t *ltrans) retVals(prefix string, e ast.Expr, env lenv, depth int) []strin
 func (t *ltrans) leaf(effects []string, rets []string) string {
 	var es []string
 	for _, e := range effects {
+		if strings.HasPrefix(e, "\x00OUT:") {
+			parts := strings.SplitN(e[len("\x00OUT:"):], "\x00", 2)
+			rets = append(rets, fmt.Sprintf("(%s, %s)", leanStr(parts[0]+"'"), parts[1]))
+			continue
+		}
 		es = append(es, leanStr(e))
 	}
 	return "⟨[" + strings.Join(es, ", ") + "], [" + strings.Join(rets, ", ") + "]⟩"
@@ -687,6 +697,35 @@ func (t *ltrans) assign(lhs ast.Expr, v lval, env lenv, effects *[]string, rhsTe
 		if obj != nil && t.locals[obj] {
 			env[obj] = v
 			return
+		}
+	}
+	if id, ok := lhs.(*ast.Ident); ok && t.loopStep {
+		if obj := t.p.info.Uses[id]; obj != nil {
+			if _, isVar := obj.(*types.Var); isVar && obj.Pkg() == t.p.pkg && obj.Parent() != t.p.pkg.Scope() {
+				// a variable of the enclosing function, assigned by the iteration: an OUTPUT of the step;
+				// later reads inside the same iteration see the new value
+				env[obj] = v
+				out := ""
+				switch v.sort {
+				case sBool:
+					out = "V.bool " + v.lean
+				case sNat, sInt:
+					out = "V.int " + t.toInt(v)
+				case sBytes:
+					out = "V.ref " + leanStr(v.text)
+				default:
+					out = "V.ref " + leanStr(v.text)
+				}
+				// the latest assignment wins
+				var kept []string
+				for _, e := range *effects {
+					if !strings.HasPrefix(e, "\x00OUT:"+id.Name+"\x00") {
+						kept = append(kept, e)
+					}
+				}
+				*effects = append(kept, "\x00OUT:"+id.Name+"\x00"+out)
+				return
+			}
 		}
 	}
 	*effects = append(*effects, t.text(lhs, env)+" = "+rhsText)
@@ -1008,6 +1047,17 @@ func (t *ltrans) translate(tg logicTarget) (string, error) {
 			return "", fmt.Errorf("%s: picked statement not found", tg.Fn)
 		}
 		body = []ast.Stmt{picked}
+		if tg.LoopStep {
+			fs, ok := picked.(*ast.ForStmt)
+			if !ok || fs.Cond == nil || fs.Init == nil {
+				return "", fmt.Errorf("%s: LoopStep needs a 3-clause for loop", tg.Fn)
+			}
+			t.loopStep = true
+			// the loop variable of the init clause is an input like the outer variables
+			iter := append(append([]ast.Stmt{}, fs.Body.List...), fs.Post)
+			exit := &ast.ExprStmt{X: &ast.CallExpr{Fun: ast.NewIdent("loopExit")}}
+			body = []ast.Stmt{&ast.IfStmt{Cond: fs.Cond, Body: &ast.BlockStmt{List: iter}, Else: &ast.BlockStmt{List: []ast.Stmt{exit}}}}
+		}
 		// locals defined exactly once in the function (by := with one value each) are substituted
 		defs := map[types.Object]ast.Expr{}
 		count := map[types.Object]int{}
